@@ -7,7 +7,7 @@ import impl, gen, oracle, evalutil as E
 from impl import quiet, PanopticaResult, Metric, MetricMode
 from common import rval_to_py, same_value, close
 
-RULE = ("metric-selection variants (a metric named twice, centre-line Dice among the metrics in 3-D incl. pairs with a 0/0 centre-line Dice: every requested list has exactly tp entries, counts unchanged); object-based label-map pairs x input type {MATCHED, UNMATCHED} x matcher {threshold, threshold+many-to-one, merge} "
+RULE = ("modular entry points (evaluate_matched_instance called directly with the decision metric given or left at its default; a matched pair from the intermediate steps evaluated again with panoptic_evaluate); metric-selection variants (a metric named twice, centre-line Dice among the metrics in 3-D incl. pairs with a 0/0 centre-line Dice: every requested list has exactly tp entries, counts unchanged); object-based label-map pairs x input type {MATCHED, UNMATCHED} x matcher {threshold, threshold+many-to-one, merge} "
         "x matching metric/threshold x decision metric {none, IOU, DSC, ASSD} x decision threshold (grid + exact hits); "
         "plus directly constructed results over (num_ref, num_pred, tp, value lists) incl. inconsistent ones; "
         "non-trivial = tp >= 1 with at least one instance on each side of a decision threshold, or a direct "
@@ -272,8 +272,65 @@ def selection_cases(ctx, n):
             ctx.violation("C02 violated: " + (book + inv)[0], inp, impl=(book + inv)[:5], key={"kind": "metric-selection"})
 
 
+def modular_cases(ctx, n):
+    """the documented modular entry points: evaluate_matched_instance called directly (decision metric given / left at its
+    documented default IoU with only a threshold given), and a matched pair taken out of the intermediate steps of one
+    evaluation and evaluated again with panoptic_evaluate (e.g. to try another decision threshold)"""
+    from panoptica.instance_evaluator import evaluate_matched_instance
+    from panoptica.panoptica_evaluator import panoptic_evaluate
+    from panoptica.utils.processing_pair import MatchedInstancePair
+    from panoptica import Panoptica_Evaluator, InputType
+    rng = ctx.rng
+    for i in range(n):
+        pred, ref = gen.matched_pair(rng, hi=8, max_obj=4)
+        if rng.random() < 0.5:
+            pads = [(rng.randint(3, 6), rng.randint(0, 3)) for _ in pred.shape]     # foreground well away from the array origin
+            pred, ref = np.pad(pred, pads), np.pad(ref, pads)
+        labs = sorted((set(np.unique(pred).tolist()) & set(np.unique(ref).tolist())) - {0})
+        if not labs:
+            continue
+        t = rng.choice([(1, 4), (1, 2), (3, 4)])
+        thr = t[0] / t[1]
+        exp_tp = sum(1 for l in labs if oracle.mask_score("IOU", ref == l, pred == l) >= Fraction(*t))
+        form = rng.choice(["direct+default-metric", "direct+metric", "re-evaluate-intermediate-pair"])
+        inp = {"shape": list(pred.shape), "dtype": str(pred.dtype), "pred": gen.arr_json(pred), "ref": gen.arr_json(ref), "thr": list(t), "form": form,
+               "src": f"modular{i}"}
+        ctx.case(inp, 0 < exp_tp < len(labs))
+        ctx.count("modular." + form)
+        metrics = [Metric.DSC, Metric.IOU]
+        try:
+            with quiet(), np.errstate(all="ignore"):
+                if form == "direct+default-metric":
+                    r = evaluate_matched_instance(MatchedInstancePair(pred.copy(), ref.copy()), eval_metrics=metrics, decision_threshold=thr)
+                    tp, lists = r.tp, {m.name: list(v) for m, v in r.list_metrics.items()}
+                elif form == "direct+metric":
+                    r = evaluate_matched_instance(MatchedInstancePair(pred.copy(), ref.copy()), eval_metrics=metrics, decision_metric=Metric.IOU, decision_threshold=thr)
+                    tp, lists = r.tp, {m.name: list(v) for m, v in r.list_metrics.items()}
+                else:
+                    ev = Panoptica_Evaluator(expected_input=InputType.MATCHED_INSTANCE, instance_metrics=metrics, global_metrics=[], verbose=False)
+                    _, steps = ev.evaluate(pred.copy(), ref.copy(), verbose=False)["ungrouped"]
+                    pair = steps[InputType.MATCHED_INSTANCE.name]
+                    if rng.random() < 0.5:
+                        pair = pair.copy()
+                    res, _ = panoptic_evaluate(pair, instance_metrics=metrics, global_metrics=[], decision_metric=Metric.IOU, decision_threshold=thr)
+                    tp = res.tp
+                    lists = {m.name: [float(x) for x in res.get_list_metric(m, MetricMode.ALL)] for m in metrics}
+        except Exception as e:
+            ctx.violation(f"C02 violated: modular call ({form}) raised {type(e).__name__}: {e}", inp, key={"kind": "modular-raises"})
+            continue
+        fails = []
+        if tp != exp_tp:
+            fails.append(f"tp = {tp}, but {exp_tp} of the {len(labs)} matched instances have IoU >= {thr}")
+        for m, v in lists.items():
+            if len(v) != tp:
+                fails.append(f"list of {m} has {len(v)} entries but tp = {tp}")
+        if fails:
+            ctx.violation(f"C02 violated ({form}): " + fails[0], inp, impl={"tp": tp, "lists": lists}, key={"kind": "modular"})
+
+
 def run(ctx):
     corpus(ctx)
+    modular_cases(ctx, ctx.scale(120, 1200))
     selection_cases(ctx, ctx.scale(40, 400))
     grouped_cases(ctx, ctx.scale(10, 80))
     rng = ctx.rng
@@ -300,6 +357,9 @@ def search(ctx):
 
 def replay(ctx, rec):
     i = rec["input"]
+    if i.get("form") in ("direct+default-metric", "direct+metric", "re-evaluate-intermediate-pair"):
+        modular_cases(ctx, 150)
+        return
     if "variants" in i:
         dt = np.dtype(i["dtype"])
         inv, book, ran = E.selection_failures(i["cfg"], np.array(i["pred"], dtype=dt).reshape(i["shape"]),
